@@ -968,3 +968,249 @@ Proof.
     destruct (N.eq_dec (r_key r') (r_key r)) as [Ek|Ek]; [|left; exact Ek].
     right. exists r'. repeat split; auto. intros ->. congruence.
 Qed.
+
+(* ====================== I. order independence ====================== *)
+Lemma ieq_refl i : ieq i i.
+Proof. destruct i; simpl; auto. Qed.
+
+Lemma Forall2_ieq_refl l : Forall2 ieq l l.
+Proof. induction l; constructor; [apply ieq_refl | assumption]. Qed.
+
+Lemma MEquiv_perm l l' : Permutation l l' -> MEquiv l l'.
+Proof. intros H. exists l'. split; [exact H | apply Forall2_ieq_refl]. Qed.
+
+Lemma MEquiv_app a a' b b' : MEquiv a a' -> MEquiv b b' -> MEquiv (a ++ b) (a' ++ b').
+Proof.
+  intros (m1 & P1 & F1) (m2 & P2 & F2). exists (m1 ++ m2). split.
+  - apply Permutation_app; assumption.
+  - apply Forall2_app; assumption.
+Qed.
+
+Lemma MEquiv_perm_l l m l' : Permutation l m -> MEquiv m l' -> MEquiv l l'.
+Proof. intros P (m' & P' & F). exists m'. split; [eapply perm_trans; eassumption | exact F]. Qed.
+
+Lemma MEquiv_flat_map_pointwise {A} (f f' : A -> list issue) K :
+  (forall x, In x K -> MEquiv (f x) (f' x)) -> MEquiv (flat_map f K) (flat_map f' K).
+Proof.
+  induction K as [|x K IH]; intros H; simpl.
+  - apply MEquiv_perm. constructor.
+  - apply MEquiv_app; [apply H; left; reflexivity | apply IH; intros y Hy; apply H; right; exact Hy].
+Qed.
+
+Lemma perm_flat_map_outer {A B} (f : A -> list B) l l' :
+  Permutation l l' -> Permutation (flat_map f l) (flat_map f l').
+Proof.
+  induction 1; simpl.
+  - constructor.
+  - apply Permutation_app_head. assumption.
+  - rewrite !app_assoc. apply Permutation_app_tail. apply Permutation_app_comm.
+  - eapply perm_trans; eassumption.
+Qed.
+
+Lemma perm_flat_map_pointwise {A B} (f g : A -> list B) l :
+  (forall x, Permutation (f x) (g x)) -> Permutation (flat_map f l) (flat_map g l).
+Proof. intros H. induction l; simpl; [constructor|]. apply Permutation_app; [apply H | assumption]. Qed.
+
+Lemma perm_filter {A} (p : A -> bool) l l' : Permutation l l' -> Permutation (filter p l) (filter p l').
+Proof.
+  induction 1; simpl.
+  - constructor.
+  - destruct (p x); [constructor|]; assumption.
+  - destruct (p x), (p y); try apply Permutation_refl. apply perm_swap.
+  - eapply perm_trans; eassumption.
+Qed.
+
+Lemma forallb_perm {A} (p : A -> bool) l l' : Permutation l l' -> forallb p l = forallb p l'.
+Proof.
+  induction 1; simpl.
+  - reflexivity.
+  - rewrite IHPermutation. reflexivity.
+  - destruct (p x), (p y); reflexivity.
+  - congruence.
+Qed.
+
+Lemma forallb_ext_all {A} (p q : A -> bool) l : (forall x, p x = q x) -> forallb p l = forallb q l.
+Proof. intros H. induction l; simpl; [reflexivity|]. rewrite H, IHl. reflexivity. Qed.
+
+Lemma all_ok_perm E vs vs' rules rules' :
+  Permutation vs vs' -> Permutation rules rules' -> all_ok E vs rules = all_ok E vs' rules'.
+Proof.
+  intros Pv Pr. unfold all_ok. rewrite (forallb_perm _ _ _ Pr). apply forallb_ext_all.
+  intros r. unfold checks_ok. apply forallb_perm. exact Pv.
+Qed.
+
+(* a table read through its keys *)
+Lemma tbl_flat_map_keys {B} (g : str -> list N -> list B) (t : tbl) :
+  NoDup (map fst t) ->
+  flat_map (fun kr => g (fst kr) (snd kr)) t = flat_map (fun x => g x (tbl_get x t)) (map fst t).
+Proof.
+  intros Hn. pose proof (tbl_wf_entries t Hn) as W.
+  assert (X : forall l, (forall k rs, In (k, rs) l -> rs = tbl_get k t) ->
+              flat_map (fun kr => g (fst kr) (snd kr)) l = flat_map (fun x => g x (tbl_get x t)) (map fst l)).
+  { induction l as [|[k rs] l IH]; intros Hl; simpl; [reflexivity|].
+    rewrite <- (Hl k rs (or_introl eq_refl)). f_equal. apply IH. intros k' rs' H. apply Hl. right. exact H. }
+  apply X. exact W.
+Qed.
+
+Lemma ptbl_flat_map_keys {B} (g : str -> list (list str) -> list B) (t : ptbl) :
+  NoDup (map fst t) ->
+  flat_map (fun kp => g (fst kp) (snd kp)) t = flat_map (fun x => g x (ptbl_get x t)) (map fst t).
+Proof.
+  intros Hn. pose proof (ptbl_entries t Hn) as W.
+  assert (X : forall l, (forall k ps, In (k, ps) l -> ps = ptbl_get k t) ->
+              flat_map (fun kp => g (fst kp) (snd kp)) l = flat_map (fun x => g x (ptbl_get x t)) (map fst l)).
+  { induction l as [|[k ps] l IH]; intros Hl; simpl; [reflexivity|].
+    rewrite <- (Hl k ps (or_introl eq_refl)). f_equal. apply IH. intros k' ps' H. apply Hl. right. exact H. }
+  apply X. exact W.
+Qed.
+
+Lemma kvs_of_perm E v rules rules' :
+  Permutation rules rules' -> Permutation (kvs_of E v rules) (kvs_of E v rules').
+Proof. apply perm_flat_map_outer. Qed.
+
+Lemma kps_of_perm E rules rules' :
+  Permutation rules rules' -> Permutation (kps_of E rules) (kps_of E rules').
+Proof. apply perm_flat_map_outer. Qed.
+
+Lemma vals_for_perm x kvs kvs' : Permutation kvs kvs' -> Permutation (vals_for x kvs) (vals_for x kvs').
+Proof. intros P. unfold vals_for. apply Permutation_map. apply perm_filter. exact P. Qed.
+
+Lemma tbl_keys_perm kvs kvs' :
+  Permutation kvs kvs' -> Permutation (map fst (tbl_fold kvs [])) (map fst (tbl_fold kvs' [])).
+Proof.
+  intros P. apply NoDup_Permutation; try (apply tbl_fold_NoDup; constructor).
+  intros x. rewrite !tbl_fold_keys. simpl.
+  split; intros [[]|H]; right; eapply Permutation_in; try exact H; [apply Permutation_map; exact P | apply Permutation_map; symmetry; exact P].
+Qed.
+
+Lemma ptbl_keys_perm kps kps' :
+  Permutation kps kps' -> Permutation (map fst (ptbl_fold kps [])) (map fst (ptbl_fold kps' [])).
+Proof.
+  intros P. apply NoDup_Permutation; try (apply ptbl_fold_NoDup; constructor).
+  intros x. rewrite !ptbl_fold_keys. simpl.
+  split; intros [[]|H]; right; eapply Permutation_in; try exact H; [apply Permutation_map; exact P | apply Permutation_map; symmetry; exact P].
+Qed.
+
+Lemma ptbl_get_perm x kps kps' :
+  Permutation kps kps' -> Permutation (ptbl_get x (ptbl_fold kps [])) (ptbl_get x (ptbl_fold kps' [])).
+Proof.
+  intros P. apply NoDup_Permutation; try (apply ptbl_fold_get_NoDup; constructor).
+  intros q. rewrite !ptbl_fold_get_In. simpl.
+  split; intros [[]|H]; right; eapply Permutation_in; try exact H; [exact P | symmetry; exact P].
+Qed.
+
+Lemma tbl_finalize_perm (mk : list N -> str -> issue) kvs kvs' :
+  (forall a b x, Permutation a b -> ieq (mk a x) (mk b x)) ->
+  Permutation kvs kvs' ->
+  MEquiv (flat_map (fun kr => if (1 <? length (snd kr))%nat then [mk (snd kr) (fst kr)] else []) (tbl_fold kvs []))
+         (flat_map (fun kr => if (1 <? length (snd kr))%nat then [mk (snd kr) (fst kr)] else []) (tbl_fold kvs' [])).
+Proof.
+  intros Hmk P.
+  rewrite (tbl_flat_map_keys (fun x rs => if (1 <? length rs)%nat then [mk rs x] else []) (tbl_fold kvs []))
+    by (apply tbl_fold_NoDup; constructor).
+  rewrite (tbl_flat_map_keys (fun x rs => if (1 <? length rs)%nat then [mk rs x] else []) (tbl_fold kvs' []))
+    by (apply tbl_fold_NoDup; constructor).
+  eapply MEquiv_perm_l; [apply perm_flat_map_outer; apply tbl_keys_perm; exact P|].
+  apply MEquiv_flat_map_pointwise. intros x _. rewrite !tbl_fold_get. simpl.
+  pose proof (vals_for_perm x _ _ P) as Pv. rewrite (Permutation_length Pv).
+  destruct (1 <? length (vals_for x kvs'))%nat.
+  - exists [mk (vals_for x kvs) x]. split; [apply Permutation_refl|]. constructor; [|constructor].
+    apply Hmk. exact Pv.
+  - apply MEquiv_perm. constructor.
+Qed.
+
+Lemma finalize_perm E v rules rules' :
+  Permutation rules rules' ->
+  MEquiv (v_finalize v (facc E v rules s_init)) (v_finalize v (facc E v rules' s_init)).
+Proof.
+  intros P. destruct v; try (apply MEquiv_perm; constructor).
+  - simpl. rewrite !facc_tbl by reflexivity. simpl. apply (tbl_finalize_perm IIdColl).
+    + intros a b x Pab. simpl. auto.
+    + apply kvs_of_perm. exact P.
+  - simpl. rewrite !facc_tbl by reflexivity. simpl. apply (tbl_finalize_perm ITitle).
+    + intros a b x Pab. simpl. auto.
+    + apply kvs_of_perm. exact P.
+  - simpl. rewrite !facc_paths, !facc_tbl by reflexivity. simpl.
+    set (T := tbl_fold (kvs_of E VFile rules) []). set (T' := tbl_fold (kvs_of E VFile rules') []).
+    rewrite (ptbl_flat_map_keys (fun x ps => if (1 <? length ps)%nat then [IFile (tbl_get x T) x] else []) (ptbl_fold (kps_of E rules) []))
+      by (apply ptbl_fold_NoDup; constructor).
+    rewrite (ptbl_flat_map_keys (fun x ps => if (1 <? length ps)%nat then [IFile (tbl_get x T') x] else []) (ptbl_fold (kps_of E rules') []))
+      by (apply ptbl_fold_NoDup; constructor).
+    eapply MEquiv_perm_l; [apply perm_flat_map_outer; apply ptbl_keys_perm; apply kps_of_perm; exact P|].
+    apply MEquiv_flat_map_pointwise. intros x _.
+    rewrite (Permutation_length (ptbl_get_perm x _ _ (kps_of_perm E _ _ P))).
+    destruct (1 <? length (ptbl_get x (ptbl_fold (kps_of E rules') [])))%nat.
+    + exists [IFile (tbl_get x T) x]. split; [apply Permutation_refl|]. constructor; [|constructor]. simpl.
+      split; [|reflexivity]. unfold T, T'. rewrite !tbl_fold_get. simpl. apply vals_for_perm. apply kvs_of_perm. exact P.
+    + apply MEquiv_perm. constructor.
+Qed.
+
+Lemma pure_validate_perm E vs vs' rules rules' :
+  Permutation vs vs' -> Permutation rules rules' ->
+  MEquiv (pure_validate E vs rules) (pure_validate E vs' rules').
+Proof.
+  intros Pv Pr. unfold pure_validate. apply MEquiv_app.
+  - apply MEquiv_perm. eapply perm_trans; [apply perm_flat_map_outer; exact Pr|].
+    apply perm_flat_map_pointwise. intros r. unfold rule_part. apply perm_flat_map_outer. exact Pv.
+  - unfold final_part. eapply MEquiv_perm_l; [apply perm_flat_map_outer; exact Pv|].
+    apply MEquiv_flat_map_pointwise. intros v _. apply finalize_perm. exact Pr.
+Qed.
+
+(* the multiset of issues (a reported group being a set of rules) does not depend on the iteration
+   order of the validator set nor on the order of the rules; neither does whether an error is raised *)
+Theorem order_independent E vs vs' rules rules' :
+  Permutation vs vs' -> Permutation rules rules' ->
+  match validate E vs rules, validate E vs' rules' with
+  | Ok l, Ok l' => MEquiv l l'
+  | Ok _, _ | _, Ok _ => False
+  | _, _ => True
+  end.
+Proof.
+  intros Pv Pr. pose proof (all_ok_perm E _ _ _ _ Pv Pr) as Ha.
+  destruct (validate_char E vs rules) as [A1 A2], (validate_char E vs' rules') as [B1 B2].
+  destruct (all_ok E vs rules) eqn:E1.
+  - rewrite (A1 eq_refl), (B1 (eq_sym Ha)). apply pure_validate_perm; assumption.
+  - specialize (A2 eq_refl). symmetry in Ha. specialize (B2 Ha).
+    destruct (validate E vs rules) as [l| |]; [exfalso; exact (A2 l eq_refl)| |];
+      destruct (validate E vs' rules') as [l'| |]; try exact I; exfalso; exact (B2 l' eq_refl).
+Qed.
+
+(* ====================== J. summary statements ====================== *)
+Theorem groups_exact E vs rules l :
+  validate E vs rules = Ok l ->
+  (forall ks x, In (IIdColl ks x) l <-> In VIdUniq vs /\ ks = group E VIdUniq rules x /\ (2 <= length ks)%nat) /\
+  (forall ks x, In (ITitle ks x) l <-> In VTitle vs /\ ks = group E VTitle rules x /\ (2 <= length ks)%nat) /\
+  (forall ks x, In (IFile ks x) l <-> In VFile vs /\ ks = group E VFile rules x /\ two_paths E rules x).
+Proof.
+  intros H. repeat split; intros; try (apply (validate_idcoll_iff E vs rules l ks x H); assumption);
+    try (apply (validate_title_iff E vs rules l ks x H); assumption);
+    try (apply (validate_file_iff E vs rules l ks x H); assumption).
+Qed.
+
+Theorem validate_raises_iff E vs rules :
+  (exists l, validate E vs rules = Ok l) <->
+  forall r v, In r rules -> In v vs -> excluded E r v = false -> exists l, v_check v r = Ok l.
+Proof.
+  split.
+  - intros [l H] r v Hr Hv Ex. apply validate_ok in H. destruct H as [Hok _].
+    eapply all_ok_In; eassumption.
+  - intros H. exists (pure_validate E vs rules). apply validate_char.
+    unfold all_ok. apply forallb_forall. intros r Hr. unfold checks_ok. apply forallb_forall. intros v Hv.
+    destruct (excluded E r v) eqn:Ex; [reflexivity|]. destruct (H r v Hr Hv Ex) as [l ->]. reflexivity.
+Qed.
+
+(* only the two reference validators can raise, and only on a condition that does not parse *)
+Theorem v_check_raises v r :
+  (forall l, v_check v r <> Ok l) ->
+  (v = VUnused \/ v = VDangling) /\ r_corr r = false /\ forall ts, parse_all (r_conds r) <> Ok ts.
+Proof.
+  intros H. destruct v; simpl in H.
+  - destruct (r_corr r); [exfalso; eapply H; reflexivity|]. split; [auto|]. split; [reflexivity|].
+    intros ts Hts. rewrite Hts in H. simpl in H. eapply H. reflexivity.
+  - destruct (r_corr r); [exfalso; eapply H; reflexivity|]. split; [auto|]. split; [reflexivity|].
+    intros ts Hts. rewrite Hts in H. simpl in H. eapply H. reflexivity.
+  - exfalso. destruct (r_id r); eapply H; reflexivity.
+  - exfalso. eapply H; reflexivity.
+  - exfalso. eapply H; reflexivity.
+  - exfalso. eapply H; reflexivity.
+Qed.
